@@ -342,8 +342,14 @@ def judge(ctx: core.Ctx, case: dict[str, Any]) -> None:
     val = resolve(data, case["segs"], flags)
     exp2 = "" if val is resolve.MISSING else render_value(val)
     if exp2 is UNSPEC:
-        ctx.unspecified("compound-value-rendering")
-        return
+        # how a compound value or a float is printed is not this property's subject, but *which* value the path selects is: the same
+        # environment prints the resolver's value when it is handed over directly, and the two texts must agree
+        o2 = drv.parse_and_render(env, "{{ v }}", {"v": val})
+        if not o2.ok:
+            ctx.unspecified("compound-value-rendering")
+            return
+        ctx.count("compound_values_compared_through_direct_render")
+        exp2 = o2.value
     if not o.ok:
         ctx.evaluations += 1
         ctx.violation(f"path:raises-{o.err_class}", f"{src!r} raised {o.err_class}: {drv.safe_str(o.exc)[:80]}")
